@@ -171,8 +171,7 @@ def _fill_rich(el, tname, rnd, p, depth):
 
 def _emit_rich(parent, prt, rnd, p, depth):
     n = prt.min if prt.min else (1 if rnd.random() < p else 0)
-    if prt.max > n and n and rnd.random() < p * 0.3:
-        n += 1
+    # (a repeatable particle is taken once: two random c:dLbl / c:dPt / c:legendEntry would collide on their c:idx)
     if n == 0:
         return
     if prt.kind == "any":
